@@ -23,6 +23,9 @@ claimed = {
  "C12": dict(level="other", text="Bounded symbolic execution of the real DeepCast (both value libraries), of cast-bearing program templates on both back ends and of the VM host boundary, against the conformance reference B.4; value/type shapes come from selectors, scalar payloads are unconstrained solver variables.",
              note="Value/type trees of depth 1 exhaustively (quick) and depth 2 within a path budget (thorough, reported as not exhaustive when the budget ends first); object keys from {a,b}; strings/ranges/any-objects have fixed payloads; JSON text is modelled by contract; function-typed values only as 'never admitted'. Trusted: go/ssa, gosym, z3, reference cvAdmit (harness/homescript/zz_verif_cast.go).",
              technique="bounded symbolic execution (go/ssa) + SMT (z3) vs conformance reference", design="§2 C12"),
+ "C13": dict(level="other", text="Bounded symbolic execution of IsEqual/Clone/Display of both value libraries and of the to_json/parse_json/cast chain; laws are asserted as SMT formulas over values of one static type whose payloads, lengths and key sets are solver variables.",
+             note="Type shapes depth 1 (quick) / 2 within a budget (thorough); lists <= 2 elements, keys from {a,b}; strings from 2 constants (unicode strings are outside), floats assumed non-NaN (and finite for JSON); JSON text is modelled by the round-trip contract of encoding/json (numbers come back as float64); object display order is C14's subject. Trusted: go/ssa, gosym, z3 (+ one-shot z3/cvc5 portfolio for FP conversion queries), reference cvSameContent.",
+             technique="bounded symbolic execution (go/ssa) + SMT (z3/cvc5) of algebraic laws", design="§2 C13"),
  "C05": dict(level="other", text="Bounded symbolic execution of lexer (and parser/analyzer as they are added) with Go run-time panics and step-bound overruns as path outcomes; within the stated bounds no input makes the code panic or fail to make progress.",
              note="Currently: lexer step totality/progress on windows of K runes (quick 3 / thorough 5). Trusted: go/ssa, gosym, z3.",
              technique="bounded symbolic execution (go/ssa) + SMT (z3), panic/bound outcomes", design="§2 C05"),
